@@ -98,3 +98,9 @@ package cmpp
 //@ func MsgIDString2Uint64
 //@   props C17
 //@   trusted
+
+// Utf8ToUcs2 goes through x/text's transform.NewReader + io.ReadAll: assumed, exercised by the XTEXT stand-in (which
+// also compares it with the two proved helpers Utf8ToUcs2Back / Utf8ToUcs2Pooled and the UCS-2 codec).
+//@ func Utf8ToUcs2
+//@   props C05
+//@   trusted
